@@ -266,14 +266,45 @@ def gen_rt10(seed, policy=None):
         yield dict(c, id=[seed, "rt10"], scn=scn, behaviour=beh)
 
 
-explore.GENERATORS.update({"rt10": gen_rt10, "c13": gen_c13, "c16": gen_c16, "c09": gen_c09, "paths": gen_paths, "pending": gen_pending, "chain": gen_chain})
+def gen_group5(seed, policy=None):
+    """One group: a producer P in a same-time (weak) loop with L, several consumers of P (plain connections), one of which is ALSO
+    triggered through a weak edge from an independent fast source Z - so that consumers wait for P at the same world time but at
+    different sub-steps while P's lower sub-step is still in flight (seed C01-h)."""
+    rng = random.Random(f"group5|{seed}")
+    g = rng.choice([[1], [1, 2]])
+    sims = [{"sid": "Sa", "type": "hybrid", "gpath": list(g)},                      # P
+            {"sid": "Sb", "type": rng.choice(["event-based", "hybrid"]), "gpath": list(g)},  # L
+            {"sid": "Sc", "type": rng.choice(["time-based", "hybrid"]), "gpath": list(g)},   # R
+            {"sid": "Sd", "type": "time-based", "gpath": list(g)},                  # Z
+            {"sid": "Se", "type": "hybrid", "gpath": list(g)}]                      # W
+    pa = rng.choice(["p", "e"])
+    conns = [{"src": "Sa", "dst": "Sb", "sa": "e", "da": "ti"},
+             {"src": "Sb", "dst": "Sa", "sa": "e", "da": "ti", "weak": True},
+             {"src": "Sa", "dst": "Sc", "sa": pa, "da": "i"},
+             {"src": "Sd", "dst": "Se", "sa": "p", "da": "ti", "weak": True},
+             {"src": "Sa", "dst": "Se", "sa": pa, "da": "i"}]
+    if rng.random() < 0.4:
+        sims.append({"sid": "Sf", "type": "hybrid", "gpath": list(g)})
+        conns += [{"src": "Sa", "dst": "Sf", "sa": pa, "da": "i"}, {"src": "Sd", "dst": "Sf", "sa": "p2", "da": "ti2", "weak": True}]
+    rng.shuffle(conns)
+    order = [x["sid"] for x in sims]
+    rng.shuffle(order)
+    scn = S.normalize({"sims": sims, "conns": conns, "until": rng.randint(2, 3), "maxloop": 4, "order": order,
+                       "lazy": rng.random() < 0.5, "cache": rng.random() < 0.5})
+    beh = {"kind": "random", "p_event": rng.choice([0.6, 0.9]), "p_future": 0.0, "tb_next": [1], "ev_next": [None, None, 1]}
+    for j in range(3):
+        yield {"id": [seed, "group5", j], "scn": scn, "seed": seed * 5 + j, "behaviour": beh,
+               "policy": dict(policy or {"kind": "random", "early": [0.2, 0.5, 0.8][j]})}
+
+
+explore.GENERATORS.update({"group5": gen_group5, "rt10": gen_rt10, "c13": gen_c13, "c16": gen_c16, "c09": gen_c09, "paths": gen_paths, "pending": gen_pending, "chain": gen_chain})
 
 # --------------------------------------------------------------------------- profiles
 
 FAM_ALL = {}
 PROFILES = {
     "C01": [("random", {"fam": {"p_async": 0.2}}), ("random", {"fam": {"nsims": (3, 5), "nconns": (3, 7)}, "policy": {"early": 0.6}, "behaviour": {"p_none": 0.15}}),
-            ("chain", {"frac": 0.4})],
+            ("chain", {"frac": 0.4}), ("group5", {"frac": 0.3})],
     "C02": [("random", {"fam": {"p_async": 0.1}, "behaviour": {"p_future": 0.4, "ev_next": [None, 1, 2, 3], "p_extra": 0.15}}),
             # (None, 0, "", False, lists and dictionaries are legal output VALUES: they trigger and travel like any other)
             ("random", {"fam": {"types": ["event-based", "hybrid"], "until": (3, 5), "p_two_entities": 0.4}, "behaviour": {"p_future": 0.5, "future": [0, 1, 2, 3], "p_none": 0.3, "p_event": 0.5}}),
@@ -285,6 +316,9 @@ PROFILES = {
                         "behaviour": {"future_pers": True, "p_future": 0.5, "future": [0, 1, 2]}, "frac": 0.3}),
             ("random", {"fam": {"groups": False, "nsims": (2, 3), "until": (4, 6), "types": ["time-based", "time-based", "hybrid"]},
                         "behaviour": {"tb_next": [1, 1, 2, 3], "recur": 2}, "frac": 0.4}),
+            # persistent values HELD over several steps (the same object re-sent), the first reply of each run announced ahead
+            ("random", {"fam": {"groups": False, "nsims": (2, 3), "until": (5, 7), "types": ["hybrid", "hybrid", "time-based"], "shifts": (0, 0, 1), "selfloops": 0.0},
+                        "behaviour": {"hold": 3, "tb_next": [1], "ev_next": [1], "p_future": 0.0, "p_event": 0.3}, "frac": 0.25}),
             ("random", {"fam": {"groups": False, "nsims": (2, 3), "until": (3, 6)}, "behaviour": {"tb_next": [1, 2, 4], "p_future": 0.3, "p_none": 0.2}})],
     "C05": [("random", {"fam": {"nsims": (2, 5), "nconns": (1, 7), "until": (2, 5), "p_async": 0.1}, "behaviour": {"p_none": 0.1}}),
             ("random", {"fam": {"shifts": (0, 1, 2, 3)}, "behaviour": {"p_future": 0.5, "future": [0, 1, 2, 3]}, "policy": {"early": 0.6}}),
